@@ -569,6 +569,9 @@ func isArrayStringEqual(a []string, b []string) bool {
 	if len(a) != len(b) {
 		return false
 	}
+	// compared as sets, the field order of the slices handed in is theirs to keep
+	a = append([]string{}, a...)
+	b = append([]string{}, b...)
 	sort.Strings(a)
 	sort.Strings(b)
 	for i := range a {
